@@ -198,4 +198,42 @@ theorem C12_disconnect_signals (s : S) (hl : s.link ≠ .closed) (hu : s.disconn
       exact ⟨by rw [(finishClosers_sig _).1, (failWaiters_sig _ _).1], by rw [(finishClosers_sig _).2, (failWaiters_sig _ _).2]⟩
 
 
+/-- `Close` from any state of the session model: it either returns – then the client is closed for good: connection control
+closed, Online blocked – or it waits, and then only because a Disconnect is inside or waits itself (`closers`) -/
+theorem C12_close_call (s : S) (tag : String) (hc : s.connSemClosed = false) :
+    (∀ e, (s.closeCall tag false).2 = .ret e →
+      (s.closeCall tag false).1.connSemClosed = true ∧ (s.closeCall tag false).1.online = false ∧ (s.closeCall tag false).1.link = .closed) ∧
+    ((s.closeCall tag false).2 = .blocked → s.closers ≠ []) := by
+  unfold S.closeCall
+  simp only [hc, Bool.false_eq_true, if_false]
+  repeat' (first | split | dsimp only)
+  all_goals first
+    | (constructor
+       · intro e _; exact ⟨closeNow_closed _, (C12_close_signals _).1, (C12_close_signals _).2⟩
+       · intro h; cases h)
+    | (constructor
+       · intro e h; cases h
+       · intro _; simp_all)
+/-- `Disconnect(nil)` from any state of the session model: it waits only for another closer or for the request that stands
+inside `conn.Write` with the write lock (the documented "nil just blocks"); when it returns – the model's own `unsupported`
+answers aside – the client is closed for good -/
+theorem C12_disconnect_call (s : S) (tag : String) (hc : s.connSemClosed = false) (hl : s.link ≠ .closed) :
+    (∀ e, (s.closeCall tag true).2 = .ret e → e ≠ mkErr ["unsupported"] →
+      (s.closeCall tag true).1.online = false ∧ (s.closeCall tag true).1.link = .closed) ∧
+    ((s.closeCall tag true).2 = .blocked → s.closers ≠ [] ∨ s.held.isSome = true) := by
+  unfold S.closeCall
+  simp only [hc, Bool.false_eq_true, if_false, ↓reduceIte]
+  repeat' (first | split | dsimp only)
+  all_goals first
+    | (constructor
+       · intro e h; cases h
+       · intro _; simp_all)
+    | (constructor
+       · intro e h hu
+         injection h with h
+         subst h
+         refine C12_disconnect_signals _ ?_ hu
+         first | (simp [S.cancelDial, (failWaiters_sig _ _).2]; exact hl) | (rw [(failWaiters_sig _ _).2]; simp) | exact hl
+       · intro h; cases h)
+
 end Model
